@@ -741,9 +741,15 @@ class Unit:
         >>> unit
         100*m
         """
-        expr = self.expr
-        self.expr = _cancel_mul(expr, self.registry)
-        return self
+        # self may be the object a registry hands out for its unit string, or a
+        # unit held by arrays: leave it as it is
+        return Unit(
+            _cancel_mul(self.expr, self.registry),
+            base_value=self.base_value,
+            base_offset=self.base_offset,
+            dimensions=self.dimensions,
+            registry=self.registry,
+        )
 
 
 def _factor_pairs(expr):
